@@ -857,7 +857,7 @@ func domainKey(prop string, e *expv1.Experiment, w world) string {
 		}
 	}
 	if t != nil {
-		// a reference to trial metadata the generator cannot resolve: unknown key, or a label/annotation the template does not carry
+		// a reference to trial metadata the generator cannot resolve: a label/annotation the template does not carry
 		var labels, annots map[string]string
 		if t.TrialSpec != nil {
 			labels, annots = t.TrialSpec.GetLabels(), t.TrialSpec.GetAnnotations()
@@ -871,19 +871,16 @@ func domainKey(prop string, e *expv1.Experiment, w world) string {
 			}
 		}
 		bad := false
-		stale := ""
 		for _, tp := range t.TrialParameters {
 			m := metaRe.FindStringSubmatch(tp.Reference)
 			if len(m) == 0 {
 				continue
 			}
-			key, idx := m[1], stale
+			key, idx := m[1], "" // the generator looks up the empty index when the reference has none
 			if m2 := parseRe.FindStringSubmatch(key); len(m2) == 3 {
 				key, idx = m2[1], m2[2]
-				stale = idx
 			}
 			switch key {
-			case "Name", "Namespace", "Kind", "APIVersion":
 			case "Labels":
 				if _, ok := labels[idx]; !ok {
 					bad = true
@@ -892,14 +889,8 @@ func domainKey(prop string, e *expv1.Experiment, w world) string {
 				if _, ok := annots[idx]; !ok {
 					bad = true
 				}
-			default:
-				// an unknown key is only admitted (by the unchanged validator) when the reference is also a parameter name
-				for _, p := range e.Spec.Parameters {
-					if p.Name == tp.Reference {
-						bad = true
-					}
-				}
 			}
+			// an unknown key is rejected: by rule 37, or - when a parameter carries the whole reference as its name - by rule 60
 		}
 		if k := kit.KeyIf(prop, "unresolvable-trial-metadata", bad); k != "" {
 			return k
